@@ -576,10 +576,26 @@ def _every_stage_restores(ctx):
     pl = ctx.repo.module(PL)
     entries = _handler_cleanup_entries(ctx)
     common = set().union(*entries.values())
-    st = f"{PL}:CommandPipeline._end"
-    fn = flat(ctx, pl.func("CommandPipeline._end"), 2)
+    # the ending step by its role (as R4): the function on end()'s way to the consumer of tee_stdout() in whose
+    # helper-transparent view the walk sits; helpers that are not on that way stay plain calls (their own try / with
+    # statements would add exits the convention does not speak about) - except the ones that hold a cleanup walk
+    chain = _ending_chain(pl)
+    cls_ms = class_methods(pl.cls("CommandPipeline"))
+    holders = {nm_ for nm_, f_ in cls_ms.items() if any(isinstance(l_, ast.For) and any((isinstance(c_.func, ast.Attribute) and c_.func.attr in common) or (call_name(c_) == "getattr" and len(c_.args) >= 2 and const_value(c_.args[1], None) in common) for c_ in calls_in(l_)) for l_ in walk_local(f_))}
+    skip = tuple(x_ for x_ in _not_on_the_way(pl, "CommandPipeline") if x_ not in holders)
+    best = None
+    for q_ in chain:
+        f_ = flat(ctx, pl.func(q_), 3, skip=skip)
+        has = any(isinstance(l_, ast.For) and any((isinstance(c_.func, ast.Attribute) and c_.func.attr in common) or (call_name(c_) == "getattr" and len(c_.args) >= 2 and const_value(c_.args[1], None) in common) for c_ in calls_in(l_)) for l_ in walk_local(f_))
+        if has or best is None:
+            best = (q_, f_)
+            if has:
+                # the innermost function of the chain that shows the walk is the one judged
+                pass
+    q_end, fn = best
+    st = f"{PL}:{q_end}"
     defs = _df.all_defs(fn)
-    cfg = CFG(fn)
+    cfg = CFG(fn, catchall=("BaseException",))
 
     def strip_order(e):
         """-> (domain expr, newest_first)"""
@@ -651,7 +667,11 @@ def _every_stage_restores(ctx):
         ctx.ob("R11", st, "the cleanup walk covers every started stage (self.procs itself)", whole, key=f"_end|cleanup-walk-partial|{unparse(dom)[:40]}", where=loc(lp), detail=None if whole else f"walks `{short(lp.iter, 50)}`")
         ctx.ob("R11", st, "the cleanup walk goes newest first (a stage saved the handler its predecessor had installed)", newest, key="_end|cleanup-walk-oldest-first", where=loc(lp), detail=None if newest else "oldest first: when the last stage was not waited for (interrupt), restoring it last re-installs its predecessor's handler")
         nodes = cfg.nodes_of(lp)
-        on_all = bool(nodes) and cfg.must_pass(cfg.entry, lambda m_: m_.ast is lp, exits=("exit", "raise"))[0]
+        # (the way out taken because the pipeline had been ended already need not walk again)
+        ended_st = [n_ for n_ in cfg.nodes if n_.kind == "stmt" and isinstance(n_.ast, ast.Assign) and unparse(n_.ast.targets[0]) == "self.ended" and const_value(n_.ast.value) is True]
+        after_store = set(cfg.reach(ended_st)) if ended_st else set()
+        already = {n_ for n_ in cfg.nodes if n_.kind == "stmt" and isinstance(n_.ast, ast.Return) and n_.ast.value is None and n_ not in after_store and ("self.ended", True) in nfacts(cfg, n_)}
+        on_all = bool(nodes) and cfg.must_pass(cfg.entry, lambda m_: m_.ast is lp or m_ in already, exits=("exit", "raise"), skip_edge=cfg.assume_edges([("self.ended", False)]))[0]
         ctx.ob("R11", st, "every way out of the ending step (exceptions included) passes the cleanup walk", on_all, key="_end|cleanup-walk-skippable", where=loc(lp))
         for c, nm in hits:
             bad = None
